@@ -308,7 +308,11 @@ func authenticateConnection(p2id participant2ID, conn net.Conn, logger Logger) (
 		return "", 0, false
 	}
 
-	pk := cert.PublicKey.(*ecdsa.PublicKey)
+	pk, isECDSA := cert.PublicKey.(*ecdsa.PublicKey)
+	if !isECDSA {
+		logger.Warnf("Identity received has an unsupported public key type (%T)", cert.PublicKey)
+		return "", 0, false
+	}
 
 	sig := h.Signature
 	h.Signature = nil
